@@ -900,6 +900,15 @@ func randDoc(rng *rand.Rand) dDoc {
 			}
 			d.Primary = append(d.Primary, randDocRes(rng, typ, ids[i]))
 		}
+		if d.Kind == "many" && rng.Intn(6) == 0 {
+			// a larger collection (work split by size, batches, goroutines: the order stays the caller's)
+			d.Primary = nil
+			big := []string{"k01", "k02", "k03", "k04", "k05", "k06", "k07", "k08", "k09", "k10", "k11", "k12"}
+			rng.Shuffle(len(big), func(i, j int) { big[i], big[j] = big[j], big[i] })
+			for _, id := range big[:9+rng.Intn(4)] {
+				d.Primary = append(d.Primary, randDocRes(rng, "t1", id))
+			}
+		}
 		if d.Kind == "many" && d.Coll == "resources" && len(d.Primary) > 0 && rng.Intn(4) == 0 {
 			// the same id under the other type (ids are unique per type only)
 			other := "t1"
